@@ -596,7 +596,7 @@ class StorageCommitment(MessageDispatcherSCP):
         rsp.message_id_being_responded_to = msg.message_id
         rsp.action_type_id = 1
         rsp.sop_class_uid = ctx.sop_class
-        rsp.affected_sop_instance_uid = instance_uid
+        rsp.affected_sop_instance_uid = msg.requested_sop_instance_uid or instance_uid
         ds = dsutils.decode(msg.data_set, ctx.supported_ts.is_implicit_VR,
                             ctx.supported_ts.is_little_endian)
         uids = ((item.ReferencedSOPClassUID, item.ReferencedSOPInstanceUID)
